@@ -82,6 +82,27 @@ func Simulate(t *testing.T, tape *Tape, cfg RunCfg, body func(r *Run), post func
 			res.BubbleErr = fmt.Sprint(p)
 		}
 	}()
+	// synctest.Test ends the calling goroutine (runtime.Goexit) when the inner
+	// test is marked failed, which the race detector does on any report: run it
+	// on a goroutine of its own so that the worker's loop survives.
+	fin := make(chan struct{})
+	go func() {
+		defer close(fin)
+		defer func() {
+			if p := recover(); p != nil {
+				res.BubbleErr = fmt.Sprint(p)
+			}
+		}()
+		simulateInBubble(t, tape, cfg, body, post, &res)
+	}()
+	<-fin
+	if res.Run != nil {
+		res.Run.JoinEdge()
+	}
+	return res
+}
+
+func simulateInBubble(t *testing.T, tape *Tape, cfg RunCfg, body func(r *Run), post func(r *Run), res *SimResult) {
 	synctest.Test(t, func(t *testing.T) {
 		r := NewRun(tape, cfg)
 		res.Run = r
@@ -102,7 +123,6 @@ func Simulate(t *testing.T, tape *Tape, cfg RunCfg, body func(r *Run), post func
 		}()
 		res.Left = r.Teardown()
 	})
-	return res
 }
 
 // IsEndOfBubbleDeadlock tells the bubble's "blocked goroutines remain" report
